@@ -309,6 +309,182 @@ Proof.
       exact (file_renamer_confined _ _ _ _ _ _ Hc Hin Hp D).
 Qed.
 
+(* ---------- any source: the test on the directory the source really lives in (F32) ------------------- *)
+(* first_pass also tests, with Path.resolve(), that the PARENT of (input directory / relative path) lies at
+   or below the input directory.  The kernel resolves every component of the source but the last with the
+   links followed, so the entry rename(2) takes away is keyed realpath(parent) ++ [last component]: it lies
+   at or below the input directory whatever links and ".." the relative path goes through.  A source whose
+   last component is ".." (or which is empty) is refused by rename(2) itself. *)
+Definition source_inside (s : fs) (f : pfile) : Prop :=
+  is_prefix_path (pf_dir f) (realpath_raw s [] (source_parent f)) = true.
+
+Lemma source_contained_inside s f : source_contained s f = Some true -> source_inside s f.
+Proof.
+  unfold source_contained, source_inside, realpath.
+  set (a := realpath_raw s [] (source_parent f)).
+  destruct (resolve s [] {| up_abs := true; up_comps := a |} true) as [? ?|? ?|[]]; intros H; inversion H; reflexivity.
+Qed.
+
+Lemma to_upath_walk' s d p fl :
+  resolve s d (to_upath p) fl = walk walk_fuel s (if Nat.eqb (pp_root p) 0 then d else []) (pp_parts p) fl.
+Proof. rewrite resolve_unfold. unfold to_upath. cbn [up_abs up_comps]. destruct (Nat.eqb (pp_root p) 0); reflexivity. Qed.
+
+Lemma bad_last_false_snoc (p : ppath) :
+  bad_last (to_upath p) = false ->
+  pp_parts p = removelast (pp_parts p) ++ [last (pp_parts p) []] /\ name_eqb (last (pp_parts p) []) dotdot = false.
+Proof.
+  unfold bad_last, to_upath. cbn [up_comps]. destruct (pp_parts p) as [|c l] eqn:E; [discriminate|]. intros H. split; [|exact H].
+  apply app_removelast_last. discriminate.
+Qed.
+
+(* the last component is looked up in the directory the walk of the others (links followed) ends in *)
+Lemma walk_last_component s f cur pre c sp sn :
+  name_eqb c dotdot = false -> walk f s cur (pre ++ [c]) false = WFound sp sn ->
+  exists q, walk f s cur pre true = WFound q NDir /\ sp = q ++ [c].
+Proof.
+  intros Ed H.
+  destruct (walk_app_split _ _ _ _ _ _ _ (ltac:(discriminate) : [c] <> []) H (found_not_err _ _)) as [q [nq [A B]]].
+  destruct (walk_found_pos _ _ _ _ _ _ _ B) as [f0 Ef]. subst f.
+  destruct (walk_cons_inv _ _ _ _ _ _ _ B (found_not_err _ _)) as [Hq W].
+  pose proof (walk_found _ _ _ _ _ _ _ A) as K. rewrite Hq in K. inversion K; subst nq.
+  exists q. split; [exact A|].
+  destruct W as [Ed' H1 | _ n Hl Hn Hrest E | _ n Hl Hn Hrest Hfl E | _ n Hl Hn Hrest H1 | _ i t Hl Hrest H1 | _ Hl Hrest E];
+    try congruence.
+  - destruct Hrest as [Hrest|Hrest]; [congruence | discriminate].
+Qed.
+
+(* fuel-generic: the key of the source is realpath(directory ++ all but the last component) ++ [last] *)
+Lemma walk_source_key_rel s wf rf d pre c sp sn :
+  walk wf s [] d true = WFound d NDir -> name_eqb c dotdot = false ->
+  walk wf s d (pre ++ [c]) false = WFound sp sn -> (wf + wf < rf)%nat ->
+  exists q, joinreal rf s [] (d ++ pre) [] = (q, true) /\ sp = q ++ [c].
+Proof.
+  intros Hc Ed H Hf.
+  destruct (walk_last_component _ _ _ _ _ _ _ Ed H) as [q [A E]]. exists q. split; [|exact E].
+  destruct pre as [|c1 pre1].
+  - rewrite app_nil_r.
+    assert (Eq : q = d).
+    { destruct (walk_found_pos _ _ _ _ _ _ _ A) as [f0 Ef]. rewrite Ef, walk_S in A.
+      destruct (lookup s d); [|discriminate A]. inversion A. reflexivity. }
+    rewrite Eq. apply (walk_realpath_agree _ _ _ _ _ _ rf Hc). lia.
+  - pose proof (walk_app_join _ _ _ _ _ _ _ _ _ _ (ltac:(discriminate) : c1 :: pre1 <> []) Hc A ltac:(discriminate)) as K.
+    apply (walk_realpath_agree _ _ _ _ _ _ rf K). lia.
+Qed.
+
+Lemma walk_source_key_abs s wf rf pre c sp sn :
+  name_eqb c dotdot = false ->
+  walk wf s [] (pre ++ [c]) false = WFound sp sn -> (wf < rf)%nat ->
+  exists q, joinreal rf s [] pre [] = (q, true) /\ sp = q ++ [c].
+Proof.
+  intros Ed H Hf.
+  destruct (walk_last_component _ _ _ _ _ _ _ Ed H) as [q [A E]]. exists q. split; [|exact E].
+  apply (walk_realpath_agree _ _ _ _ _ _ rf A). exact Hf.
+Qed.
+
+Lemma source_inside_unfold s f :
+  source_inside s f =
+  (is_prefix_path (pf_dir f)
+     (fst (joinreal realpath_fuel s [] ((if Nat.eqb (pp_root (pf_rel f)) 0 then pf_dir f else []) ++ removelast (pp_parts (pf_rel f))) []))
+   = true).
+Proof. reflexivity. Qed.
+
+Lemma prefix_snoc d q (c : name) : is_prefix_path d q = true -> is_prefix_path d (q ++ [c]) = true.
+Proof.
+  intros H. apply is_prefix_path_spec in H as [r ->]. apply is_prefix_path_spec. exists (r ++ [c]). rewrite app_assoc. reflexivity.
+Qed.
+
+Lemma source_key_inside s f sp sn :
+  chdir s (pf_dir f) = Some (pf_dir f) -> source_inside s f ->
+  bad_last (to_upath (pf_rel f)) = false ->
+  resolve s (pf_dir f) (to_upath (pf_rel f)) false = WFound sp sn ->
+  is_prefix_path (pf_dir f) sp = true.
+Proof.
+  intros Hc Hin Hb H. apply chdir_self in Hc.
+  destruct (bad_last_false_snoc _ Hb) as [Ep Ed].
+  rewrite source_inside_unfold in Hin.
+  rewrite resolve_unfold in Hc. change (walk walk_fuel s [] (pf_dir f) true = WFound (pf_dir f) NDir) in Hc.
+  rewrite to_upath_walk' in H. rewrite Ep in H.
+  destruct (Nat.eqb (pp_root (pf_rel f)) 0).
+  - destruct (walk_source_key_rel _ _ realpath_fuel _ _ _ _ _ Hc Ed H) as [q [J E]].
+    { pose proof fuel_gap. lia. }
+    rewrite J in Hin. rewrite E. apply prefix_snoc. exact Hin.
+  - destruct (walk_source_key_abs _ _ realpath_fuel _ _ _ _ Ed H) as [q [J E]].
+    { pose proof fuel_gap. lia. }
+    change ([] ++ removelast (pp_parts (pf_rel f))) with (removelast (pp_parts (pf_rel f))) in Hin.
+    rewrite J in Hin. rewrite E. apply prefix_snoc. exact Hin.
+Qed.
+
+Lemma os_rename_ok_not_bad_last s cwd src dst s' :
+  os_rename s cwd src dst = SOk s' -> bad_last src = false.
+Proof.
+  unfold os_rename. destruct (bad_last src); [|reflexivity]. cbn [orb].
+  destruct (resolve s cwd src false); [destruct (resolve s cwd dst false)| |]; discriminate.
+Qed.
+
+(* one rename step, any source: source_contained replaces plain_source *)
+Theorem confined_step_any_source s f np s' dpar dname :
+  chdir s (pf_dir f) = Some (pf_dir f) ->
+  contained fixed s f np = Some true ->
+  source_contained s f = Some true ->
+  resolve s (pf_dir f) (to_upath np) false = WMissing dpar dname ->
+  os_rename s (pf_dir f) (to_upath (pf_rel f)) (to_upath np) = SOk s' ->
+  is_prefix_path (pf_dir f) (dpar ++ [dname]) = true /\
+  (exists sp sn, resolve s (pf_dir f) (to_upath (pf_rel f)) false = WFound sp sn /\
+                 is_prefix_path (pf_dir f) sp = true /\ s' = rekey sp (dpar ++ [dname]) s) /\
+  changes_below (pf_dir f) s s'.
+Proof.
+  intros Hc Hin Hs Hd H.
+  apply (confined_rename _ _ _ _ _ _ Hc Hin Hd); [|exact H].
+  intros sp sn R. apply (source_key_inside _ _ _ _ Hc (source_contained_inside _ _ Hs)
+                           (os_rename_ok_not_bad_last _ _ _ _ _ H) R).
+Qed.
+
+Lemma file_renamer_confined_any_source flt w f np w' e :
+  chdir (w_fs w) (pf_dir f) = Some (pf_dir f) ->
+  contained fixed (w_fs w) f np = Some true ->
+  source_contained (w_fs w) f = Some true ->
+  file_renamer fixed flt w (pf_dir f) (pf_rel f) np false = (w', e) ->
+  changes_below (pf_dir f) (w_fs w) (w_fs w').
+Proof.
+  intros Hc Hin Hp. rewrite file_renamer_fixed_unfold.
+  destruct (lexists (w_fs w) (pf_dir f) (to_upath np)) eqn:Hg.
+  { intros H. inversion H; subst. apply changes_below_refl. }
+  destruct (negb (ppath_eqb (pp_parent (pf_rel f)) (pp_parent np))).
+  { intros H. inversion H; subst. apply changes_below_refl. }
+  destruct (sys flt CRename w (os_rename (w_fs w) (pf_dir f) (to_upath (pf_rel f)) (to_upath np))) as [w1 e1] eqn:Sy.
+  intros H.
+  assert (Ew : w1 = w') by (destruct e1; inversion H; reflexivity). subst w1. clear H.
+  destruct (sys_fs _ _ _ _ _ _ Sy) as [E | [_ R]].
+  - rewrite E. apply changes_below_refl.
+  - destruct (resolve (w_fs w) (pf_dir f) (to_upath np) false) as [dp dn|dpar dname|er] eqn:Rd.
+    + exfalso. exact (not_lexists_not_found _ _ _ Hg _ _ Rd).
+    + exact (proj2 (proj2 (confined_step_any_source _ _ _ _ _ _ Hc Hin Hp Rd R))).
+    + exfalso. exact (os_rename_ok_dest_not_err _ _ _ _ _ _ R Rd).
+Qed.
+
+Theorem confined_renamer_step_any_source c w f np w' e :
+  c_var c = fixed -> (c_dry c = true \/ c_mode c <> MPath) ->
+  chdir (w_fs w) (pf_dir f) = Some (pf_dir f) ->
+  contained (c_var c) (w_fs w) f np = Some true ->
+  source_contained (w_fs w) f = Some true ->
+  renamer c w (pf_dir f) (pf_rel f) np false = (w', e) ->
+  changes_below (pf_dir f) (w_fs w) (w_fs w').
+Proof.
+  intros Hv Hm Hc Hin Hp. rewrite Hv in Hin. unfold renamer, renamer_core. rewrite Hv.
+  destruct (c_dry c) eqn:Hdry.
+  - destruct (dry_renamer fixed (match c_mode c with MPath => false | _ => true end) w (pf_dir f) (pf_rel f) np false)
+      as [w1 [e1|]] eqn:D; intros H; inversion H; subst; try rewrite add_report_fs;
+      rewrite (dry_renamer_fs _ _ _ _ _ _ _ _ _ D); apply changes_below_refl.
+  - destruct Hm as [Hm|Hm]; [discriminate|].
+    assert (R : forall X, match c_mode c with MPath => X | _ => file_renamer fixed (c_fault c) w (pf_dir f) (pf_rel f) np false end
+                          = file_renamer fixed (c_fault c) w (pf_dir f) (pf_rel f) np false).
+    { intros X. destruct (c_mode c); congruence. }
+    rewrite R.
+    destruct (file_renamer fixed (c_fault c) w (pf_dir f) (pf_rel f) np false) as [w1 [e1|]] eqn:D;
+      intros H; inversion H; subst; try rewrite add_report_fs;
+      exact (file_renamer_confined_any_source _ _ _ _ _ _ Hc Hin Hp D).
+Qed.
+
 (* ---------- non-vacuity: a symlinked directory inside the input directory ----------------------------- *)
 (* /in, /in/a (file), /in/sub, /in/lnk -> sub, /out.  Name mode would not produce it, but as a path:
    "lnk/../b" resolves (kernel and realpath alike) to /in/b, the containment test accepts it, and the
